@@ -17,10 +17,10 @@ import (
 )
 
 type c17Cond struct {
-	T string     `json:"t"` // bool not and or hash group entry bycontract bygroup
-	B bool       `json:"b,omitempty"`
-	L []c17Cond  `json:"l,omitempty"` // sub-conditions (one for not)
-	H string     `json:"h,omitempty"` // 20-byte hash or 33-byte key, hex
+	T string    `json:"t"` // bool not and or hash group entry bycontract bygroup
+	B bool      `json:"b,omitempty"`
+	L []c17Cond `json:"l,omitempty"` // sub-conditions (one for not)
+	H string    `json:"h,omitempty"` // 20-byte hash or 33-byte key, hex
 }
 type c17Rule struct {
 	Action byte    `json:"action"`
@@ -57,11 +57,12 @@ type c17Tx struct {
 	Wits    []c17Wit    `json:"wits"`
 }
 type c17Item struct {
-	T string     `json:"t"` // any bool int bytes buffer array struct map
-	B bool       `json:"b,omitempty"`
-	Z string     `json:"z,omitempty"`
-	D string     `json:"d,omitempty"`
-	L []c17Item  `json:"l,omitempty"` // elements; for map: k0,v0,k1,v1,...
+	T   string    `json:"t"` // any bool int bytes buffer array struct map ref (ref: the Ref-th shared instance of the case)
+	Ref int       `json:"ref,omitempty"`
+	B   bool      `json:"b,omitempty"`
+	Z   string    `json:"z,omitempty"`
+	D   string    `json:"d,omitempty"`
+	L   []c17Item `json:"l,omitempty"` // elements; for map: k0,v0,k1,v1,...
 }
 
 // a small pool of valid P-256 public keys (compressed, hex); derived from fixed private scalars so that the
@@ -202,8 +203,32 @@ func (t c17Tx) build() *transaction.Transaction {
 	return tx
 }
 
-func (it c17Item) build() stackitem.Item {
+// c17ItemCtx resolves "ref" items: with share the SAME Go instance is returned for every occurrence (a DAG),
+// without it every occurrence is built afresh (the tree obtained by unfolding)
+type c17ItemCtx struct {
+	shared []c17Item
+	share  bool
+	inst   []stackitem.Item
+}
+
+func (it c17Item) build() stackitem.Item { return it.buildCtx(nil) }
+
+func (it c17Item) buildCtx(ctx *c17ItemCtx) stackitem.Item {
 	switch it.T {
+	case "ref":
+		if ctx == nil || it.Ref >= len(ctx.shared) {
+			panic("item ref without shared instances")
+		}
+		if !ctx.share {
+			return ctx.shared[it.Ref].buildCtx(ctx)
+		}
+		if ctx.inst == nil {
+			ctx.inst = make([]stackitem.Item, len(ctx.shared))
+		}
+		if ctx.inst[it.Ref] == nil {
+			ctx.inst[it.Ref] = ctx.shared[it.Ref].buildCtx(ctx) // entries refer to earlier entries only: no cycles
+		}
+		return ctx.inst[it.Ref]
 	case "any":
 		return stackitem.Null{}
 	case "bool":
@@ -218,7 +243,7 @@ func (it c17Item) build() stackitem.Item {
 	case "array", "struct":
 		l := []stackitem.Item{}
 		for _, x := range it.L {
-			l = append(l, x.build())
+			l = append(l, x.buildCtx(ctx))
 		}
 		if it.T == "array" {
 			return stackitem.NewArray(l)
@@ -227,7 +252,7 @@ func (it c17Item) build() stackitem.Item {
 	case "map":
 		m := stackitem.NewMap()
 		for i := 0; i+1 < len(it.L); i += 2 {
-			m.Add(it.L[i].build(), it.L[i+1].build())
+			m.Add(it.L[i].buildCtx(ctx), it.L[i+1].buildCtx(ctx))
 		}
 		return m
 	}
@@ -314,8 +339,13 @@ func (t c17Tx) coq() string {
 	return fmt.Sprintf("(Tx %d %d %d %d %d %s %s %s %s)", t.Version, t.Nonce, uint64(t.SysFee), uint64(t.NetFee), t.VUB,
 		coqList(ss), coqList(as), coqHexBytes(t.Script), coqList(ws))
 }
-func (it c17Item) coq() string {
+func (it c17Item) coq() string { return it.coqCtx(nil) }
+
+// the Coq item model has value semantics: a reference is printed as the item it refers to (unfolding)
+func (it c17Item) coqCtx(shared []c17Item) string {
 	switch it.T {
+	case "ref":
+		return shared[it.Ref].coqCtx(shared)
 	case "any":
 		return "IAny"
 	case "bool":
@@ -330,7 +360,7 @@ func (it c17Item) coq() string {
 	case "array", "struct":
 		var l []string
 		for _, x := range it.L {
-			l = append(l, x.coq())
+			l = append(l, x.coqCtx(shared))
 		}
 		n := "IArray"
 		if it.T == "struct" {
@@ -340,7 +370,7 @@ func (it c17Item) coq() string {
 	case "map":
 		var l []string
 		for i := 0; i+1 < len(it.L); i += 2 {
-			l = append(l, "("+it.L[i].coq()+", "+it.L[i+1].coq()+")")
+			l = append(l, "("+it.L[i].coqCtx(shared)+", "+it.L[i+1].coqCtx(shared)+")")
 		}
 		return "(IMap " + coqList(l) + ")"
 	}
@@ -568,7 +598,7 @@ func c17GenItem(r *rng, depth int, budget *int) c17Item {
 func c17GenHeader(r *rng, sr bool) *block.Header {
 	h := &block.Header{Version: uint32(r.intn(2)), Timestamp: r.next(), Nonce: r.next(), Index: uint32(r.next()), PrimaryIndex: byte(r.next()),
 		StateRootEnabled: sr,
-		Script: transaction.Witness{InvocationScript: r.bytes(pick(r, []int{0, 1, 66, 253})), VerificationScript: r.bytes(pick(r, []int{0, 1, 35, 252}))}}
+		Script:           transaction.Witness{InvocationScript: r.bytes(pick(r, []int{0, 1, 66, 253})), VerificationScript: r.bytes(pick(r, []int{0, 1, 35, 252}))}}
 	copy(h.PrevHash[:], r.bytes(32))
 	copy(h.MerkleRoot[:], r.bytes(32))
 	copy(h.NextConsensus[:], r.bytes(20))
@@ -594,4 +624,130 @@ func latticeIntsCached(r *rng) []*big.Int {
 		}
 	}
 	return c17IntLattice
+}
+
+// ---- DAG-shaped items: the same compound instance reachable several times from one item ----
+
+func c17Ref(i int) c17Item { return c17Item{T: "ref", Ref: i} }
+
+func c17GenPrim(r *rng) c17Item {
+	switch r.intn(5) {
+	case 0:
+		return c17Item{T: "any"}
+	case 1:
+		return c17Item{T: "bool", B: r.bool()}
+	case 2:
+		return c17Item{T: "int", Z: pick(r, latticeIntsCached(r)).String()}
+	case 3:
+		return c17Item{T: "bytes", D: hx(r.bytes(pick(r, []int{0, 1, 20, 64})))}
+	default:
+		return c17Item{T: "buffer", D: hx(r.bytes(pick(r, []int{0, 3})))}
+	}
+}
+
+// a pool of shared compounds (each may contain earlier pool entries) and a top item in which every pool entry
+// occurs two or three times at different depths
+func c17GenDAG(r *rng) ([]c17Item, c17Item) {
+	var shared []c17Item
+	np := 1 + r.intn(4)
+	for i := 0; i < np; i++ {
+		var it c17Item
+		sub := func() c17Item { // an element: a primitive, or an earlier shared instance
+			if i > 0 && r.chance(45) {
+				return c17Ref(r.intn(i))
+			}
+			return c17GenPrim(r)
+		}
+		switch r.intn(6) {
+		case 0:
+			it = c17Item{T: "map", L: []c17Item{}}
+		case 1:
+			it = c17Item{T: "array", L: []c17Item{}}
+		case 2:
+			it = c17Item{T: "struct", L: []c17Item{}}
+		case 3:
+			it = c17Item{T: "map", L: []c17Item{{T: "int", Z: "1"}, sub(), {T: "bytes", D: "6b"}, sub(), {T: "bool", B: true}, sub()}}
+		default:
+			it = c17Item{T: pick(r, []string{"array", "struct"}), L: []c17Item{}}
+			for k, n := 0, 1+r.intn(3); k < n; k++ {
+				it.L = append(it.L, sub())
+			}
+		}
+		shared = append(shared, it)
+	}
+	var wrap func(x c17Item, d int) c17Item
+	wrap = func(x c17Item, d int) c17Item {
+		for ; d > 0; d-- {
+			switch r.intn(3) {
+			case 0:
+				x = c17Item{T: "array", L: []c17Item{c17GenPrim(r), x}}
+			case 1:
+				x = c17Item{T: "struct", L: []c17Item{x}}
+			default:
+				x = c17Item{T: "map", L: []c17Item{{T: "int", Z: fmt.Sprint(d)}, x}}
+			}
+		}
+		return x
+	}
+	top := c17Item{T: pick(r, []string{"array", "struct"}), L: []c17Item{}}
+	for i := range shared {
+		for k, n := 0, 2+r.intn(2); k < n; k++ {
+			top.L = append(top.L, wrap(c17Ref(i), r.intn(3)))
+		}
+	}
+	if r.bool() { // the shared instances as map values too
+		m := c17Item{T: "map", L: []c17Item{}}
+		for i := range shared {
+			m.L = append(m.L, c17Item{T: "int", Z: fmt.Sprint(i)}, c17Ref(i))
+		}
+		top.L = append(top.L, m)
+	}
+	r2 := top.L
+	for i := len(r2) - 1; i > 0; i-- { // shuffle
+		j := r.intn(i + 1)
+		r2[i], r2[j] = r2[j], r2[i]
+	}
+	return shared, top
+}
+
+// doubling chains: shared[0] = empty compound, shared[i+1] = compound of two occurrences of shared[i]:
+// the unfolded tree has 2^(k+1)-1 items (k = 10: 2047, the largest below the limit; k = 11: 4095, refused)
+func c17GenDoubling(kind string, k int) ([]c17Item, c17Item) {
+	mk := func(a, b c17Item, has bool) c17Item {
+		switch kind {
+		case "map":
+			if !has {
+				return c17Item{T: "map", L: []c17Item{}}
+			}
+			return c17Item{T: "map", L: []c17Item{{T: "int", Z: "0"}, a, {T: "int", Z: "1"}, b}}
+		default:
+			if !has {
+				return c17Item{T: kind, L: []c17Item{}}
+			}
+			return c17Item{T: kind, L: []c17Item{a, b}}
+		}
+	}
+	shared := []c17Item{mk(c17Item{}, c17Item{}, false)}
+	for i := 1; i <= k; i++ {
+		shared = append(shared, mk(c17Ref(i-1), c17Ref(i-1), true))
+	}
+	return shared, c17Ref(k)
+}
+
+// a shared instance occurring three times in an array padded with Any so that the UNFOLDED item count is exactly
+// total: 2048 must be accepted, 2049 refused (a replayed occurrence is charged its full count)
+func c17GenBudgetEdge(kind string, total int) ([]c17Item, c17Item) {
+	var x c17Item
+	cnt := 0
+	switch kind {
+	case "map":
+		x, cnt = c17Item{T: "map", L: []c17Item{{T: "int", Z: "1"}, {T: "any"}}}, 3
+	default:
+		x, cnt = c17Item{T: kind, L: []c17Item{{T: "any"}}}, 2
+	}
+	top := c17Item{T: "array", L: []c17Item{c17Ref(0), c17Ref(0), c17Ref(0)}}
+	for n := 1 + 3*cnt; n < total; n++ {
+		top.L = append(top.L, c17Item{T: "any"})
+	}
+	return []c17Item{x}, top
 }
